@@ -126,6 +126,7 @@ type Outcome struct {
 	Pattern     string
 	NodeNil     bool
 	Params      map[string]string
+	ParamsAfter map[string]string // read again after the handler returned: the context is the request's own until then
 	RouterName  string
 	NodeMethods []string
 	NodeAllow   string
@@ -149,6 +150,11 @@ type Outcome struct {
 	PanicAt    string // handler ID (or MW name) at which to panic
 	PanicAfter bool
 	PanicWith  any
+
+	// nested request: the base handler serves Sub through SubHandler before it answers
+	Sub        *Req
+	SubHandler http.Handler
+	SubOutcome *Outcome
 }
 
 // EffStatus is the status the client sees.
@@ -232,6 +238,10 @@ func Call(w http.ResponseWriter, r *http.Request, route types.Route, h *H) {
 			}
 		}
 	}
+	defer func() {
+		o.ParamsAfter = map[string]string{}
+		route.Params().Range(func(k, v string) { o.ParamsAfter[k] = v })
+	}()
 	h.exec(w, r, o)
 }
 
@@ -256,6 +266,10 @@ func (h *H) exec(w http.ResponseWriter, r *http.Request, o *Outcome) {
 		return
 	}
 	o.BaseRuns++
+	if o.Sub != nil && o.SubHandler != nil && o.SubOutcome == nil {
+		// a handler that issues a request of its own to the same router / group while it is being served
+		o.SubOutcome = Serve(o.SubHandler, *o.Sub)
+	}
 	switch h.Kind {
 	case "options":
 		w.Header().Set("Allow", h.Node.AllowHeader())
@@ -303,11 +317,14 @@ type Req struct {
 	PanicAt    string `json:"panic_at,omitempty"`
 	PanicAfter bool   `json:"panic_after,omitempty"`
 	PanicWith  any    `json:"-"`
+
+	Sub        *Req         `json:"sub,omitempty"` // nested request issued by the base handler
+	SubHandler http.Handler `json:"-"`
 }
 
 // Build makes the *http.Request and the Outcome it reports into.
 func (q Req) Build() (*http.Request, *Outcome, *Rec) {
-	o := &Outcome{PanicAt: q.PanicAt, PanicAfter: q.PanicAfter, PanicWith: q.PanicWith}
+	o := &Outcome{PanicAt: q.PanicAt, PanicAfter: q.PanicAfter, PanicWith: q.PanicWith, Sub: q.Sub, SubHandler: q.SubHandler}
 	hdr := http.Header{}
 	for k, v := range q.Header {
 		hdr[k] = append([]string{}, v...)
